@@ -402,6 +402,13 @@ public:
         if (ME->hasQualifier()) O["qualified"] = true;
       } else {
         O["recv"] = serExpr(MC->getImplicitObjectArgument());
+        // (obj.*pm)(..) / (ptr->*pm)(..): keep the pointer-to-member expression
+        if (const auto *BO = dyn_cast<BinaryOperator>(Callee)) {
+          if (BO->getOpcode() == BO_PtrMemD || BO->getOpcode() == BO_PtrMemI) {
+            O["fn"] = serExpr(BO->getRHS());
+            if (BO->getOpcode() == BO_PtrMemI) O["arrow"] = true;
+          }
+        }
       }
       json::Array A;
       for (const Expr *Arg : MC->arguments()) A.push_back(serExpr(Arg));
